@@ -1,6 +1,6 @@
 (* C19/Properties.v — the property theorems, nothing else.  Each is closed by [exact lemma]
    and followed by Print Assumptions (captured into the evidence by the check driver). *)
-From Verif Require Import Common.Base C19.Model C19.Proofs1 C19.Proofs2 C19.Proofs3 C19.Proofs4 C19.Proofs5 C19.Proofs6 C19.Proofs7 C19.Proofs8.
+From Verif Require Import Common.Base C19.Model C19.Proofs1 C19.Proofs2 C19.Proofs3 C19.Proofs4 C19.Proofs5 C19.Proofs6 C19.Proofs7 C19.Proofs8 C19.Proofs9.
 Local Open Scope Z_scope.
 
 (* ---- receiver helper -------------------------------------------------------------------- *)
@@ -110,6 +110,32 @@ Theorem processor_op_balance : forall s o,
   (po_res o = PError \/ po_res o = PSkip -> lget (ProcOut s) (proc_step s o) = 0) /\
   (forall c, c <> ProcIn s -> c <> ProcOut s -> lget c (proc_step s o) = 0).
 Proof. exact proc_step_facts. Qed.
+
+(* ---- pipeline instrumentation (service/internal/obsconsumer) -------------------------------- *)
+
+(* every history of Consume calls through an obsconsumer wrapper of signal s (all four signals):
+   success + failure = the items OFFERED, the outcome follows the downstream error, no counter of
+   another signal or component moves *)
+Theorem pipeline_balance : forall s ops,
+  lget (PipeOk s) (pipe_run s ops) + lget (PipeFail s) (pipe_run s ops) = sumZ (map pc_n ops) /\
+  lget (PipeOk s) (pipe_run s ops) = sumZ (map pc_n (filter (fun o => negb (pc_err o)) ops)) /\
+  lget (PipeFail s) (pipe_run s ops) = sumZ (map pc_n (filter pc_err ops)) /\
+  (forall t, t <> s -> lget (PipeOk t) (pipe_run s ops) = 0 /\ lget (PipeFail t) (pipe_run s ops) = 0) /\
+  (forall c, is_pipe_counter c = false -> lget c (pipe_run s ops) = 0).
+Proof. exact pipe_balance_l. Qed.
+
+Theorem pipeline_op_balance : forall s o,
+  lget (PipeOk s) (pipe_consume s o) + lget (PipeFail s) (pipe_consume s o) = pc_n o /\
+  (pc_err o = false -> lget (PipeOk s) (pipe_consume s o) = pc_n o /\ lget (PipeFail s) (pipe_consume s o) = 0) /\
+  (pc_err o = true -> lget (PipeOk s) (pipe_consume s o) = 0 /\ lget (PipeFail s) (pipe_consume s o) = pc_n o) /\
+  (forall c, c <> PipeOk s -> c <> PipeFail s -> lget c (pipe_consume s o) = 0).
+Proof. exact pipe_consume_facts. Qed.
+
+(* what the downstream consumer leaves in the payload (moved out, dropped, appended: MutatesData)
+   does not matter: the count is taken before the call *)
+Theorem pipeline_counts_offered_not_left : forall s ops ops',
+  map (fun o => (pc_n o, pc_err o)) ops = map (fun o => (pc_n o, pc_err o)) ops' -> pipe_run s ops = pipe_run s ops'.
+Proof. exact pipe_mutation_irrelevant_l. Qed.
 
 (* ---- exporter helper ------------------------------------------------------------------------ *)
 
@@ -270,6 +296,9 @@ Print Assumptions scraper_logs_counted_as_metric_points.
 Print Assumptions scraper_scraped_errored.
 Print Assumptions processor_balance.
 Print Assumptions processor_op_balance.
+Print Assumptions pipeline_balance.
+Print Assumptions pipeline_op_balance.
+Print Assumptions pipeline_counts_offered_not_left.
 Print Assumptions exporter_accounting_law.
 Print Assumptions exporter_balance_partial.
 Print Assumptions exporter_balance_persistent_partial.
